@@ -78,6 +78,52 @@ var zzTemplates = []zzTmpl{
 	{name: "breaksiblings", src: "n := 0\nfor k := range 3\n    for p := range 3\n        if p > a\n            break\n        end\n        n = n + 1\n    end\n    for q := range 3\n        if q > b\n            break\n        end\n        n = n + 10\n    end\n    if k == 1\n        break\n    end\nend\n", assume: "small"},
 }
 
+// zzUnsupportedSnips: statements the compiler has no translation for (two
+// lines each, indented by the wrapper). Wrapped into every kind of block they
+// must still make Compile fail: a block must not swallow the error.
+var zzUnsupportedSnips = []struct{ name, pre, body string }{
+	{"typeddecl", "", "n:num\nn = a\nx = x + n\n"},
+	{"funccall", "func f:num n:num\n    return n * 2\nend\n", "x = f a\n"},
+	{"proccall", "func g n:num\n    x = n\nend\n", "g b\n"},
+	{"dot", "m := {k:a}\n", "x = m.k\n"},
+	{"dotassign", "m := {k:a}\n", "m.k = b\n"},
+	{"typeassert", "v:any\nv = a\n", "x = v.(num)\n"},
+	{"anyelem", "", "arr := [a \"s\"]\narr = arr\n"},
+}
+
+var zzBlockWraps = []struct{ name, open, close string }{
+	{"if", "if a == a or b == b\n", "end\n"},
+	{"else", "if a != a\n    x = 1\nelse\n", "end\n"},
+	{"elseif", "if a != a\n    x = 1\nelse if true\n", "end\n"},
+	{"while", "i := 0\nwhile i < 2\n    i = i + 1\n", "end\n"},
+	{"for", "for range 2\n", "end\n"},
+	{"nested", "for range 2\n    if true\n", "    end\nend\n"},
+}
+
+func zzIndent(s, pad string) string {
+	out := ""
+	for _, l := range strings.Split(strings.TrimSuffix(s, "\n"), "\n") {
+		out += pad + l + "\n"
+	}
+	return out
+}
+
+// zzAllTemplates: the hand-written templates plus every unsupported snippet inside every block kind.
+func zzAllTemplates() []zzTmpl {
+	all := append([]zzTmpl{}, zzTemplates...)
+	for _, sn := range zzUnsupportedSnips {
+		for _, w := range zzBlockWraps {
+			pad := "    "
+			if w.name == "nested" {
+				pad = "        "
+			}
+			src := "x := 0\n" + sn.pre + w.open + zzIndent(sn.body, pad) + w.close
+			all = append(all, zzTmpl{name: "unsupported-" + sn.name + "-in-" + w.name, src: src, unsupported: true})
+		}
+	}
+	return all
+}
+
 type zzEvalPlat struct {
 	evaluator.UnimplementedPlatform
 	lines []string
@@ -204,8 +250,9 @@ func ZZC16Diff() { zzRunTemplate(16) }
 func ZZC17Emitted() { zzRunTemplate(17) }
 
 func zzRunTemplate(mode int) {
-	ti := zzChoice("prog", len(zzTemplates))
-	t := zzTemplates[ti]
+	templates := zzAllTemplates()
+	ti := zzChoice("prog", len(templates))
+	t := templates[ti]
 	a, b := zzFloat64("a"), zzFloat64("b")
 	switch t.assume {
 	case "step":
